@@ -218,6 +218,8 @@ Abs(e) ==
                        ELSE LET ex == IF a.v = 0 \/ b.v = 0 THEN 0 ELSE IF a.v >= 0 /\ b.v >= 0 /\ b.v <= Big6 \div a.v THEN a.v * b.v ELSE -1 IN
                             [v |-> ex, vlo |-> IF ex >= 0 THEN ex ELSE Big6, lo |-> IF ex >= 0 THEN BitLen(ex) ELSE (IF a.v = 0 \/ b.v = 0 THEN 1 ELSE AddCap(a.lo, b.lo) - 1),
                              hi |-> IF ex >= 0 THEN BitLen(ex) ELSE AddCap(a.hi, b.hi), seq |-> FALSE]
+    [] e.k = "lst"  -> [v |-> -1, vlo |-> 0, lo |-> 1, hi |-> 1, seq |-> TRUE]                  \* the one-element list [a]
+    [] e.k = "agg"  -> [v |-> -1, vlo |-> 0, lo |-> 1, hi |-> CAPB, seq |-> FALSE]              \* max / min / sum / sum(.., []) of a: only its cost is modelled
     [] e.k = "fact" -> LET a == Abs(e.a) IN
                        IF a.v >= 0 /\ a.v <= 9 THEN LET f == FactSmall(a.v) IN [v |-> f, vlo |-> f, lo |-> BitLen(f), hi |-> BitLen(f), seq |-> FALSE]
                        ELSE LET n == VLo(a) IN
@@ -226,9 +228,24 @@ BombLimit == 200000000      \* beyond 2 x 10^8 bits / items the evaluation canno
 SafeLimit == 4096           \* results up to this size must simply be computed (D-layer; not part of the property)
 RECURSIVE MaxLo(_)
 RECURSIVE MaxHi(_)
+RECURSIVE Deep(_)
+RECURSIVE Work(_)
 Max2(x, y) == IF x > y THEN x ELSE y
-MaxLo(e) == IF e.k \in {"n", "p10", "s"} THEN Abs(e).lo ELSE IF e.k = "neg" THEN MaxLo(e.a) ELSE IF e.k = "fact" THEN Max2(Abs(e).lo, MaxLo(e.a)) ELSE Max2(Abs(e).lo, Max2(MaxLo(e.a), MaxLo(e.b)))
-MaxHi(e) == IF e.k \in {"n", "p10", "s"} THEN Abs(e).hi ELSE IF e.k = "neg" THEN MaxHi(e.a) ELSE IF e.k = "fact" THEN Max2(Abs(e).hi, MaxHi(e.a)) ELSE Max2(Abs(e).hi, Max2(MaxHi(e.a), MaxHi(e.b)))
+Unary == {"neg", "fact", "lst", "agg"}
+MaxLo(e) == IF e.k \in {"n", "p10", "s"} THEN Abs(e).lo ELSE IF e.k \in {"neg", "lst", "agg"} THEN MaxLo(e.a) ELSE IF e.k = "fact" THEN Max2(Abs(e).lo, MaxLo(e.a)) ELSE Max2(Abs(e).lo, Max2(MaxLo(e.a), MaxLo(e.b)))
+MaxHi(e) == IF e.k \in {"n", "p10", "s"} THEN Abs(e).hi ELSE IF e.k \in {"neg", "lst"} THEN MaxHi(e.a) ELSE IF e.k = "agg" THEN CAPB ELSE IF e.k = "fact" THEN Max2(Abs(e).hi, MaxHi(e.a)) ELSE Max2(Abs(e).hi, Max2(MaxHi(e.a), MaxHi(e.b)))
+(* Deep(e): lower bound of the number of items an aggregate or comparison walks in the value of e, nested sequences included -- a shared inner list is walked every
+   time it occurs, so [[0] * n] * n is n * n items deep although it holds n references.  Work(e): the largest walk any aggregate inside e performs
+   (sum(xs, []) re-copies its growing result: deep * length / 2). *)
+Deep(e) == CASE e.k = "s"   -> Abs(e).lo
+             [] e.k = "lst" -> 1 + (IF Abs(e.a).seq THEN Deep(e.a) ELSE 0)
+             [] e.k = "mul" -> IF Abs(e.a).seq /\ ~Abs(e.b).seq THEN MulCap(Deep(e.a), VLo(Abs(e.b)))
+                               ELSE IF Abs(e.b).seq /\ ~Abs(e.a).seq THEN MulCap(Deep(e.b), VLo(Abs(e.a))) ELSE 0
+             [] OTHER -> 0
+Work(e) == CASE e.k \in {"n", "p10", "s"} -> 0
+             [] e.k = "agg" -> Max2(Work(e.a), IF e.f = "sumcat" THEN MulCap(Deep(e.a), Abs(e.a).lo) \div 2 ELSE Deep(e.a))
+             [] e.k \in {"neg", "fact", "lst"} -> Work(e.a)
+             [] OTHER -> Max2(Work(e.a), Work(e.b))
 Nn(x) == [k |-> "n", n |-> x]
 BLeaves == {Nn(0), Nn(1), Nn(2), Nn(9), Nn(10), Nn(99), Nn(100000), [k |-> "p10", n |-> 9], [k |-> "p10", n |-> 30], [k |-> "s", n |-> 1], [k |-> "s", n |-> 3]}
 B1 == {[k |-> o, a |-> x, b |-> y] : o \in {"pow", "mul"}, x \in BLeaves, y \in BLeaves} \cup {[k |-> "fact", a |-> x] : x \in BLeaves \ {[k |-> "s", n |-> 1], [k |-> "s", n |-> 3]}}
@@ -242,7 +259,16 @@ Ng(x) == [k |-> "neg", a |-> x]
 Negs == {[k |-> "pow", a |-> Ng(x), b |-> y] : x \in {Nn(1), Nn(2), Nn(3), Nn(10), [k |-> "p10", n |-> 9]}, y \in {Nn(2), Nn(99), Nn(100000), [k |-> "p10", n |-> 9], [k |-> "pow", a |-> Nn(9), b |-> Nn(9)]}}
         \cup {[k |-> "mul", a |-> Ng(x), b |-> y] : x \in {Nn(3), [k |-> "p10", n |-> 30]}, y \in {[k |-> "p10", n |-> 30], [k |-> "pow", a |-> Nn(10), b |-> Nn(100000)]}}
         \cup {Ng([k |-> "pow", a |-> Nn(9), b |-> [k |-> "pow", a |-> Nn(9), b |-> Nn(9)]]), [k |-> "pow", a |-> Nn(2), b |-> Ng(Nn(2))]}
-Bombs == B1ok \cup Towers \cup Negs
-BombCase(e) == [ast |-> e, lo |-> MaxLo(e), hi |-> MaxHi(e), alo |-> Abs(e).lo, ahi |-> Abs(e).hi, bomb |-> MaxLo(e) > BombLimit, safe |-> MaxHi(e) <= SafeLimit]
+Lst(x) == [k |-> "lst", a |-> x]
+Rep(x, n) == [k |-> "mul", a |-> x, b |-> n]
+Agg(f, x) == [k |-> "agg", f |-> f, a |-> x]
+Counts == {Nn(9), Nn(1000), Nn(30000), Nn(1000000)}
+Shared == {Agg(f, Rep(Lst(Rep(Lst(Nn(0)), x)), y)) : f \in {"max", "min", "sum"}, x \in Counts, y \in Counts}                 \* max([[0] * x] * y)
+          \cup {Agg(f, Rep(Lst(Rep(Lst(Rep(Lst(Nn(0)), x)), y)), z)) : f \in {"max", "min"}, x \in {Nn(9), Nn(1000)}, y \in {Nn(1000)}, z \in {Nn(1000), Nn(1000000)}}
+          \cup {Agg("sumcat", Rep(Lst(Rep(Lst(Nn(0)), x)), y)) : x \in {Nn(1), Nn(9), Nn(1000)}, y \in Counts}                  \* sum([[0] * x] * y, [])
+          \cup {Agg(f, Rep(Lst([k |-> "s", n |-> 3]), y)) : f \in {"max", "min"}, y \in Counts}
+Bombs == B1ok \cup Towers \cup Negs \cup Shared
+BombCase(e) == [ast |-> e, lo |-> MaxLo(e), hi |-> MaxHi(e), alo |-> Abs(e).lo, ahi |-> Abs(e).hi, work |-> Work(e),
+                bomb |-> (MaxLo(e) > BombLimit \/ Work(e) > BombLimit), safe |-> MaxHi(e) <= SafeLimit]
 
 ===============================================================================
